@@ -110,13 +110,17 @@ Definition dummy_block : block := mkblock 0 0 0 0 [] [] 0 0 0 true 0 0 0 0 [] []
 Record runstate := mkrun {
   r_node : node;
   r_idx : N;
-  r_bad : list (N * N);     (* (op index, code) *)
-  r_amb : bool              (* fork choice was ambiguous at some point: later comparisons are not meaningful *)
+  r_bad : list (N * N);     (* correspondence: (op index, code) *)
+  r_amb : bool;             (* fork choice was ambiguous at some point: later comparisons are not meaningful *)
+  r_prop : list (N * N)     (* per-operation property predicate: (op index, code) *)
 }.
 
 Section Run.
 Variable cfg : config.
 Variable h : hist.
+(* property predicate evaluated at every operation on the implementation's observation, with the model's
+   node before and after as the reference store: 0 = holds *)
+Variable pf : node -> node -> block -> N -> obs -> N.
 
 Definition blk (i : nat) : block := nth i (h_blocks h) dummy_block.
 
@@ -135,12 +139,14 @@ Definition run_op (st : runstate) (op : hop) : runstate :=
       let bad2 := match d with
                   | Some dd => if amb' || dump_eqb (dump_of n1) dd then [] else [(r_idx st, 2)]
                   | None => [] end in
+      let pc := if amb' then 0 else pf (r_node st) n1 (blk i) now o in
       mkrun n1 (r_idx st + 1) (r_bad st ++ bad1 ++ bad2) amb'
+            (if pc =? 0 then r_prop st else r_prop st ++ [(r_idx st, pc)])
   end.
 
 Definition run_hist : option runstate :=
   match start with
-  | Ok n0 => Some (fold_left run_op (h_ops h) (mkrun n0 0 [] false))
+  | Ok n0 => Some (fold_left run_op (h_ops h) (mkrun n0 0 [] false []))
   | _ => None
   end.
 
@@ -151,17 +157,26 @@ Definition hist_corr : list (N * N) :=
   | None => [(0, 9)]
   end.
 
+(* property verdict for one history: first failing (op index, code), encoded 10000 * op + code; 0 = holds *)
+Definition hist_prop : N :=
+  match run_hist with
+  | Some st => match r_prop st with [] => 0 | (op, c) :: _ => 10000 * op + c end
+  | None => 0
+  end.
+
 End Run.
 
+Definition no_pf : node -> node -> block -> N -> obs -> N := fun _ _ _ _ _ => 0.
+
 Definition hist_bad_corr (cfg : config) (hs : list hist) : list N :=
-  bad_indices (fun h => match hist_corr cfg h with [] => true | _ => false end) hs 0.
+  bad_indices (fun h => match hist_corr cfg h no_pf with [] => true | _ => false end) hs 0.
 
 (* first disagreement of each bad history, for the replay file: (history index, 10 * op index + code) *)
 Definition hist_corr_detail (cfg : config) (hs : list hist) : list (N * N) :=
   (fix go (l : list hist) (i : N) :=
      match l with
      | [] => []
-     | h :: r => match hist_corr cfg h with
+     | h :: r => match hist_corr cfg h no_pf with
                  | [] => go r (i + 1)
                  | (op, c) :: _ => (i, 10 * op + c) :: go r (i + 1)
                  end
